@@ -41,6 +41,7 @@ func rulesC10(c *Ctx) {
 	ruleC10NilRecv(c)
 	ruleC10NilBucket(c)
 	ruleC10TableIndex(c)
+	ruleC10LateCursor(c)
 }
 
 // ruleC10TableIndex: a package-level array or slice used as a lookup table is indexed only by a constant,
@@ -1828,4 +1829,77 @@ func entryOnly(v ssa.Value, keys *[]int64, mm **ssa.MakeMap, depth int) bool {
 		}
 	}
 	return true
+}
+
+// ruleC10LateCursor: a symbol's per-row cursor field is only assigned by OpenCursor.  A query can reach the
+// symbol's other methods without OpenCursor ever having run (`count(a.b.c) = null` evaluates the set symbol
+// through IsNil), so every other method that follows the field must have established that it is not nil.
+func ruleC10LateCursor(c *Ctx) {
+	p := c.P
+	n := 0
+	type key struct {
+		t *types.Named
+		f *types.Var
+	}
+	late := map[key]bool{}
+	for _, fn := range c.prodFuncs("boltz") {
+		if fn.Name() != "OpenCursor" || fn.Signature.Recv() == nil || fn.Parent() != nil {
+			continue
+		}
+		recvT := namedOf(fn.Signature.Recv().Type())
+		for _, b := range fn.Blocks {
+			for _, in := range b.Instrs {
+				st, ok := in.(*ssa.Store)
+				if !ok {
+					continue
+				}
+				f, base := fieldOfAddr(st.Addr)
+				if f == nil || base != ssa.Value(fn.Params[0]) {
+					continue
+				}
+				switch f.Type().Underlying().(type) {
+				case *types.Pointer:
+					late[key{recvT, f}] = true
+				}
+			}
+		}
+	}
+	for _, fn := range c.prodFuncs("boltz") {
+		if fn.Signature.Recv() == nil || fn.Parent() != nil || fn.Name() == "OpenCursor" {
+			continue
+		}
+		recvT := namedOf(fn.Signature.Recv().Type())
+		var fi *FactInfo
+		for _, b := range fn.Blocks {
+			for _, in := range b.Instrs {
+				// a dereference of the loaded field: field access through it
+				fa, ok := in.(*ssa.FieldAddr)
+				if !ok {
+					continue
+				}
+				ld, isLd := fa.X.(*ssa.UnOp)
+				if !isLd {
+					continue
+				}
+				f, base := loadedField(ld)
+				if f == nil || base != ssa.Value(fn.Params[0]) || !late[key{recvT, f}] {
+					continue
+				}
+				n++
+				if fi == nil {
+					fi = factsOf(fn)
+				}
+				guarded := fi.HoldsWhere(b, func(ft Fact) bool {
+					if ft.Kind != "nonnil" || !ft.Pol {
+						return false
+					}
+					gf, gb := loadedField(ft.V)
+					return sameVar(gf, f) && gb == base
+				})
+				c.Check(guarded, "C10.LATECURSOR", FnName(fn)+": ."+f.Name(), p.Pos(fa.Pos()), "the cursor field is followed only where it was found non-nil", "the field ."+f.Name()+" is only assigned by OpenCursor, but this method follows it without a nil test: a query that evaluates the symbol without opening a cursor first (a null test on a set function over it) panics with a nil pointer dereference")
+			}
+		}
+	}
+	c.CallSites(n)
+	c.Floor("C10.LATECURSOR", 1)
 }
